@@ -115,6 +115,15 @@ func (c *C03Case) Run() string {
 		}
 		return ""
 	}
+	// the sources of safe copies live on: whatever happens to a copy later, the source still reads the
+	// same and its pending transposition can still be undone
+	type leftBehind struct {
+		t       *tensor.Dense
+		m       Arr
+		befores []Arr
+		at      int
+	}
+	var left []leftBehind
 	for si, st := range c.Prog {
 		desc := fmt.Sprintf("step %d %s(perm %v axis %d start %d safe %v) on shape %v [source %v, prog %v]", si, st.Op, st.Perm, st.Axis, st.Start, st.Safe, m.Shape, c.L, c.Prog[:si])
 		rank := len(m.Shape)
@@ -300,6 +309,7 @@ func (c *C03Case) Run() string {
 			if msg := noAlias(rd, t, m, d); msg != "" {
 				return desc + ": " + msg
 			}
+			left = append(left, leftBehind{t, m, append([]Arr{}, befores...), si})
 			t = rd
 			attached = false
 			if len(befores) > 0 && st.Op != "pkgTranspose" {
@@ -321,10 +331,40 @@ func (c *C03Case) Run() string {
 		if msg := compareAt(t, m, bitEqVal); msg != "" {
 			return desc + ": " + msg
 		}
+		if msg := derivedProbe(t, m); msg != "" {
+			return desc + ": afterwards " + msg
+		}
 		if attached {
 			if msg := frame(desc); msg != "" {
 				return msg
 			}
+		}
+		for _, lb := range left {
+			if msg := compareAt(lb.t, lb.m, bitEqVal); msg != "" {
+				return desc + fmt.Sprintf(": the source of the safe copy made at step %d no longer reads the same: %s", lb.at, msg)
+			}
+		}
+	}
+	for _, lb := range left {
+		if pan := try(func() { lb.t.UT() }); pan != "" {
+			return fmt.Sprintf("UT() on the source of the safe copy made at step %d panicked: %s [prog %v]", lb.at, pan, c.Prog)
+		}
+		cands := append([]Arr{lb.m}, lb.befores...) // nothing pending, or any state a UT may restore
+		ok := len(lb.befores) == 0 && compareAt(lb.t, lb.m, bitEqVal) == ""
+		var msgs string
+		for _, cand := range cands[1:] {
+			if cand.E == nil {
+				cand = lb.m
+			}
+			if msg := compareAt(lb.t, cand, bitEqVal); msg == "" {
+				ok = true
+				break
+			} else {
+				msgs += " {" + msg + "}"
+			}
+		}
+		if !ok {
+			return fmt.Sprintf("after the program, UT() on the source of the safe copy made at step %d did not restore it:%s [source %v, prog %v]", lb.at, msgs, c.L, c.Prog)
 		}
 	}
 	return ""
@@ -372,7 +412,7 @@ func noAlias(cp, src *tensor.Dense, srcM Arr, d DT) string {
 	return ""
 }
 
-var c03DTs = []DT{dtInt8, dtBool, dtInt16, dtF32, dtF64, dtC128, dtStr}
+var c03DTs = []DT{dtInt8, dtBool, dtInt16, dtF32, dtF64, dtC128, dtStr, dtRec24, dtArr6}
 var c03Layouts = []string{"contig", "sliced", "stepsliced", "cmraw", "cmconv"}
 
 func genC03Shape(rt *rapid.T) []int {
